@@ -46,10 +46,10 @@ ASSUMES = ["shift law and oracle: no slurred notes (the pitch-bend-range announc
            "no negative note timing (a start before tick 0 is written at tick 0)",
            "cut oracle: controller numbers 0..127; values as the writer sends them (clamped to 0..127); pitch bend ignored; "
            "note-offs compared only when no two notes of one pitch overlap in the track",
-           "tick oracle: time bases divisible by 4 (48, 96, 480, 960), so that 4*tb/d is an integer for d = 2, 4, 8, 16"]
+           "tick oracle: time bases divisible by 4 (48, 96, 480, 960, 100, 52, 60, 200, 1000), so that 4*tb/d is an integer for d = 2, 4, 8, 16"]
 
 FEATS = {"tie": False, "comments": True}
-TBS = [48, 96, 480, 960]
+TBS = [48, 96, 480, 960, 100, 52, 60, 200, 1000]   # multiples of 4 (4*tb/d integral for d = 2,4,8,16), some NOT multiples of 8 or 16
 MARK = " CH(16)n100,%1,100,99,0 "
 # every command is CLOSED (ends with `;` or `)`): an expression-valued argument would otherwise absorb a following
 # `>`, `(`, `/* */` ... (the proviso of C18), and the two sources of a law pair would not differ by the inserted text only
